@@ -336,3 +336,40 @@ func (e *env) stretchedIndex(f *mp4.File, part partition, add, nz bool) {
 		e.c.Count("oracle3_held:"+tag, 1)
 	}
 }
+
+// runMoovSamples is the fifth family: the moov of base declares a few samples (one chunk,
+// data inside an mdat of the file) for one track other than the first
+// (gen/frag.AddMoovSamples, byte level); the file stays fragmented (mvex, empty first
+// track, moof boxes). The same readers and oracles 1-3 run on it: the Init must be there
+// and ftyp/moov must be written byte-identically by segment-mode Encode/EncodeSW.
+func runMoovSamples(c *runner.Ctx, h *genfrag.History, base *genfrag.Built, shapes []genfrag.FragShape, flags mp4.DecFileFlags) {
+	if len(h.Tracks) < 2 {
+		c.Count("moovsamples_not_possible_single_track", 1)
+		return
+	}
+	r := c.Rand
+	mb, sh, err := genfrag.AddMoovSamples(base, r)
+	if err != nil {
+		c.Inconclusive("moovsamples family: generator matter: " + short(err.Error()))
+		return
+	}
+	if mb == nil {
+		c.Count("moovsamples_not_possible", 1)
+		return
+	}
+	c.Count("moovsamples_files", 1)
+	c.Seen("moovsamples_trak_index", fmt.Sprint(sh.Trak))
+	c.Seen("moovsamples_samples_in_moov", fmt.Sprint(sh.Samples))
+	c.Seen("moovsamples_stsz_form", map[bool]string{false: "sample_size", true: "table"}[sh.SizeTable])
+	if sh.SampleSize == 0 {
+		c.Count("moovsamples_files_with_empty_sample", 1)
+	}
+	c.Seen("moovsamples_base", map[bool]string{false: "as-built", true: "reshaped"}[shapes != nil])
+	o := fileOpts{shapes: shapes, flags: flags, o3add: r.Chance(7, 8), o3nz: r.Bool(), tool: r.Chance(1, 8), fam: "moovsamples"}
+	if runFile(c, h, mb, o) {
+		c.Nontrivial(runner.Hash64(mb.Bytes, []byte{byte(flags), 'm'}))
+	}
+	if c.WantSample() {
+		c.Sample(map[string]interface{}{"family": "moovsamples", "shape": sh, "dec_flags": flags, "bytes": len(mb.Bytes)})
+	}
+}
